@@ -6,6 +6,14 @@
 // in a different insertion order / initial capacity / after unrelated insert+delete traffic (so that
 // Go's randomised map iteration differs too). Oracle: deep equality of Eligible and Waiting (per shard,
 // ordered) and of Leaving (ordered); an error must be the same error.
+// Then 4 more evaluations with the input lists laid out differently in memory (layoutEvaluations: lists
+// cut out of one shared array back to back, with gaps, capped, private spare capacity, grown by append,
+// mixed), each call made twice with the same argument object: same result as the reference, and the
+// caller's lists still hold what the caller put there.
+// A second family of cases (coord.go) goes through the nodes coordinator: 6 fresh coordinators built from
+// the same configuration process the same epoch-start blocks (leaving validators in several shards, equal
+// Index values across shards, shards over their removal quota) and must report the same new-epoch
+// eligible / waiting / leaving lists.
 package main
 
 import (
@@ -20,6 +28,7 @@ import (
 
 const variants = 5
 const veterans = 3
+const layouts = 4 // evaluations with another memory layout of the input lists, each followed by a second call
 
 // runOnVeteran evaluates the input on a shuffler instance that already processed 1-3 other calls at
 // other epochs (the same validators at another epoch with another randomness, or unrelated inputs):
@@ -78,12 +87,20 @@ func runOnVeteran(in *sg.Input, rng *vk.Rand, mode int) (*sg.Out, []uint32) {
 func main() {
 	_ = logger.SetLogLevel("*:NONE")
 	r := vk.Start("C13")
-	r.Rule("same generator as C12 (1-4 shards + metachain, sizes 0-12 around the minimums, new nodes, leaving lists with eligible/waiting/unknown/new/duplicated keys, epochs around the activation epochs, both distributors, MaxNodesChangeConfig variants); most inputs with 1-3 MaxNodesChangeConfig entries (EpochEnable 0-12, so the first one is usually > 0); each input evaluated 9x: reference, 5 concurrent re-evaluations with rebuilt maps and fresh shufflers, and 3 on veteran shuffler instances that first processed 1-3 other calls (same validators or unrelated inputs) at epochs at/above the highest EpochEnable, below the lowest, or random; non-trivial = the reference call returned a result for a non-empty validator set; distinct = distinct input signatures (shards, minimums, flags, max swap, per-shard sizes, new count, leaving composition)")
-	r.Assume("the order of validators inside each per-shard list, of the new list and of the leaving lists is part of the input (only the maps are rebuilt)", "MaxNodesChangeConfig lists are permuted only when their EpochEnable values are distinct")
+	r.Rule("same generator as C12 (1-4 shards + metachain, sizes 0-12 around the minimums, new nodes, leaving lists with eligible/waiting/unknown/new/duplicated keys, epochs around the activation epochs, both distributors, MaxNodesChangeConfig variants); most inputs with 1-3 MaxNodesChangeConfig entries (EpochEnable 0-12, so the first one is usually > 0); each input evaluated 9x: reference, 5 concurrent re-evaluations with rebuilt maps and fresh shufflers, and 3 on veteran shuffler instances that first processed 1-3 other calls (same validators or unrelated inputs) at epochs at/above the highest EpochEnable, below the lowest, or random; non-trivial = the reference call returned a result for a non-empty validator set; distinct = distinct input signatures (shards, minimums, flags, max swap, per-shard sizes, new count, leaving composition); plus 4 evaluations per input with another memory layout of the input lists (first always all lists as back-to-back sub-slices of one shared array; others drawn from exact / one-arena / arena-per-group / arena-gaps / arena-capped / private-spare / append / mixed), each made twice with the same argument object, with a check that the caller's lists are unchanged; plus coordinator cases: 6 fresh nodes coordinators (plain or rater, 1-3 shards + metachain) built from one configuration with maps in different insertion orders, driven through the same 1-3 epoch-start blocks whose validator-info records carry Index = position in the shard list / 0..2 / constant / 0..59 and leaving rates 0-80 %, compared after every EpochStartPrepare (non-trivial = the change was installed; distinct by shards, flags, leaving count and spread, index ties, over-quota, step)")
+	r.Assume("the order of validators inside each per-shard list, of the new list and of the leaving lists is part of the input (only the maps are rebuilt)", "MaxNodesChangeConfig lists are permuted only when their EpochEnable values are distinct",
+		"an input list is the validators visible through the caller's slice header: unused capacity between or behind the lists is not judged; a nil list equals an empty one",
+		"coordinator cases: validator-info records are consistent with the previous configuration (a listed validator is reported with its own shard, no key twice in a body), all nodes receive byte-identical headers and bodies")
 	r.MinShapes(200)
 	n := r.N(6000, 450000)
+	nCoord := r.N(1200, 60000)
 
-	r.Parallel(n, func(c *vk.Case) {
+	// cases 0..n-1 drive the shuffler directly, cases n..n+nCoord-1 go through the nodes coordinator
+	r.Parallel(n+nCoord, func(c *vk.Case) {
+		if c.Idx >= n {
+			coordCase(r, c)
+			return
+		}
 		in := sg.Gen(c.Rng, sg.Opts{CfgHeavy: true})
 		ref := in.Run(nil)
 		outs := make([]*sg.Out, variants+veterans)
@@ -154,6 +171,7 @@ func main() {
 				break
 			}
 		}
+		layoutEvaluations(r, c, in, ref)
 		if ref.Err != "" || total == 0 {
 			r.Trivial()
 			return
@@ -171,5 +189,87 @@ func main() {
 			r.Sample(map[string]interface{}{"input": in.Dump(), "result_all_6_evaluations": ref.Dump()})
 		}
 	})
+	if r.ReplayCase < 0 {
+		if r.Counter("layout_evaluations_where_a_list_had_capacity_inside_a_shared_array") == 0 {
+			r.Inconclusive("no evaluation with input lists cut out of a shared array")
+		}
+		if r.Counter("coordinator_epoch_changes_with_equal_index_leaving_in_2+_shards_and_a_shard_over_quota") == 0 {
+			r.Inconclusive("no coordinator epoch change had leaving validators with equal indexes in two shards and a shard over its removal quota")
+		}
+	}
 	r.Finish()
+}
+
+// layoutEvaluations re-evaluates the input with the per-shard lists, the new list and the leaving lists
+// laid out in memory in other ways (sub-slices of one shared array lying back to back, with gaps, with
+// capped capacity, private arrays with spare capacity, grown by append, nil for empty, mixed; see
+// shufflegen.AllocStyles). The first layout is always "one-arena". Oracles: the result equals the
+// reference (exact private arrays); after the call the caller still sees every input list (through its
+// own slice headers and through the maps) holding the validators it put there; the same arguments
+// handed to the same instance again give the reference result again.
+func layoutEvaluations(r *vk.Run, c *vk.Case, in *sg.Input, ref *sg.Out) {
+	for k := 0; k < layouts; k++ {
+		style := "one-arena"
+		if k > 0 {
+			style = sg.AllocStyles[c.Rng.Intn(len(sg.AllocStyles))]
+		}
+		var order *vk.Rand
+		if c.Rng.Bool() {
+			order = c.Rng.Fork()
+		}
+		alloc := c.Rng.Fork()
+		sa, args, lay := in.BuildAlloc(order, alloc, style)
+		sh, err := sharding.NewHashValidatorsShuffler(sa)
+		if err != nil {
+			if ref.Err != "constructor: "+err.Error() {
+				r.Violation(c.Idx, "nondeterministic-error class=list-allocation", fmt.Sprintf("constructor error %q vs reference %q", err.Error(), ref.Err), map[string]interface{}{"input": in.Dump()})
+			}
+			r.Eval(1)
+			continue
+		}
+		r.Count("layout_evaluations_"+style, 1)
+		if lay.SpareShared > 0 {
+			r.Count("layout_evaluations_where_a_list_had_capacity_inside_a_shared_array", 1)
+		}
+		var first, second *sg.Out
+		p, v, st := vk.Guard(func() {
+			res, err := sh.UpdateNodeLists(args)
+			first = sg.Flatten(res, err)
+		})
+		if p {
+			first = &sg.Out{Err: fmt.Sprintf("panic: %v at %s", v, vk.TopFrame(st))}
+		}
+		r.Count("shuffler_calls", 1)
+		detail := func(o *sg.Out) map[string]interface{} {
+			return map[string]interface{}{"input": in.Dump(), "layout": lay.Dump(), "reference_private_exact_lists": ref.Dump(), "other": o.Dump()}
+		}
+		r.Eval(1)
+		if comp, d := sg.Diff(ref, first); comp != "" {
+			r.Violation(c.Idx, "nondeterministic-"+comp+" class=list-allocation", fmt.Sprintf("the same validators handed over in lists laid out as %q give another result than in private exact-size lists: %s", style, d), detail(first))
+			return
+		}
+		r.Eval(1)
+		if group, d := lay.Changed(args); group != "" {
+			r.Violation(c.Idx, "input-modified-"+group, fmt.Sprintf("UpdateNodeLists changed its caller's input (layout %q): %s", style, d), detail(first))
+			return
+		}
+		p, v, st = vk.Guard(func() {
+			res, err := sh.UpdateNodeLists(args)
+			second = sg.Flatten(res, err)
+		})
+		if p {
+			second = &sg.Out{Err: fmt.Sprintf("panic: %v at %s", v, vk.TopFrame(st))}
+		}
+		r.Count("shuffler_calls", 1)
+		r.Eval(1)
+		if comp, d := sg.Diff(ref, second); comp != "" {
+			r.Violation(c.Idx, "nondeterministic-"+comp+" class=same-arguments-again", fmt.Sprintf("the same argument object handed to the same instance a second time gives another result (layout %q): %s", style, d), detail(second))
+			return
+		}
+		r.Eval(1)
+		if group, d := lay.Changed(args); group != "" {
+			r.Violation(c.Idx, "input-modified-"+group, fmt.Sprintf("the second UpdateNodeLists call changed its caller's input (layout %q): %s", style, d), detail(second))
+			return
+		}
+	}
 }
